@@ -40,7 +40,7 @@ def _rand_script(rng, depth, allow_nested, name_hint=''):
             elif r < 0.43:
                 ops.append(['soon', 'c%d' % rng.randint(0, 9)])
             elif r < 0.5:
-                ops.append(['asoon', 'a%d' % rng.randint(0, 9), rng.randint(1, 4)])
+                ops.append(['asoon', 'a%d' % rng.randint(0, 9), rng.randint(1, 4)] + (['obj'] if rng.random() < 0.4 else []))
             elif r < 0.6:
                 ops.append(['sample', 's%d' % rng.randint(0, 9)])
             elif r < 0.7:
@@ -75,7 +75,7 @@ def gen_cases(tier, seed):
         scripts = [_rand_script(rng, 2, False) for _ in range(k)]
         plan = []
         for _a in range(rng.randint(0, 3)):
-            plan.append({'at': rng.randint(0, 25), 'proc': rng.randint(0, 7), 'act': rng.choice(['pause', 'play', 'kill', 'pause'])})
+            plan.append({'at': rng.randint(0, 25), 'proc': rng.randint(0, 7), 'act': rng.choice(['pause', 'play', 'kill', 'pause', 'soon_fn', 'soon_coro', 'soon_obj'])})
         cases.append({'kind': 'concurrent', 'scripts': scripts, 'plan': sorted(plan, key=lambda e: e['at']), 'wait': rng.random() < 0.3,
                       'inline_top': [rng.random() < 0.4 for _ in range(k)]})
     # an interruption (pause / kill) reaching a process that waits while being stepped inline -- by a parent step or by ordinary code
@@ -176,7 +176,14 @@ def run_concurrent(case):
                 everyone = list(curprog.PROCS.values())
                 p = everyone[e['proc'] % len(everyone)]
                 try:
-                    getattr(p, e['act'])(*([] if e['act'] == 'play' else ['m']))
+                    if e['act'] in ('soon_fn', 'soon_coro', 'soon_obj'):
+                        # ordinary code (no process is current here) hands the process a callback: a function, a coroutine function or
+                        # an object with an async __call__
+                        if not p.has_terminated():
+                            p.call_soon({'soon_fn': lambda: curprog._cb(p, 'outside-fn'), 'soon_coro': lambda: curprog._acb(p, 'outside-coro', 2),
+                                         'soon_obj': lambda: curprog._AsyncCallable(p, 'outside-obj', 2)}[e['act']]())
+                    else:
+                        getattr(p, e['act'])(*([] if e['act'] == 'play' else ['m']))
                 except Exception:  # noqa: BLE001
                     pass
                 cur = plumpy.Process.current()
